@@ -86,6 +86,12 @@ def param_kind(lf, i):
 
 
 def check_config(cfg, w, rep):
+    check_removal_effects(cfg, w, rep)
+    check_removed_is_absent(cfg, w, rep)
+
+
+def check_removal_effects(cfg, w, rep):
+    """(a)–(d): what each removal entry point does to the filesystem, bounded above and below."""
     prog = w.prog
     fw = FsWorld.get(w)
     is_async = not cfg.startswith("sync")
@@ -109,6 +115,10 @@ def check_config(cfg, w, rep):
             check_remove_fully(cfg, w, fw, rep, lf)
     rep.floor("removal_entry_points", n_entries, 12 if is_async else 6, cfg)
 
+
+
+def check_removed_is_absent(cfg, w, rep):
+    prog = w.prog
     # ---- (e) a removed key is not found by reads, metadata and listing: the tombstone these entry points append is
     #      honoured by every lookup (C05 b: last record wins, a None-integrity record clears) and by the listing
     #      (C10 b/d: last-wins de-duplication by key, tombstones dropped after it) ----
@@ -249,6 +259,36 @@ def check_remove_fully(cfg, w, fw, rep, lf):
                       loc=blk_loc(body, bad2[0][0]), config=cfg, rule="remove-fully-arms")
     elif len(rm_blocks) >= 2 and tomb_blocks:
         rep.ob(cfg, "remove-fully-arms", key, "`%s`: %d file removals only under remove_fully==true, tombstone only under false" % (short(lf.path), len(rm_blocks)))
+        # ... and the full removal is complete whenever it reports success: from the remove_fully==true edge no success
+        # return is reachable without passing the removal of the bucket file, nor without passing the removal of the content
+        cf = prog.cfg(body)
+        succ = [rd for rd in ret_defs(prog, body) if rd.cls in ("success", "unknown", "delegated")]
+        for what, shape_ in (("index bucket", "Bucket"), ("content file", "Content")):
+            blks = {e.blk for e in w.own_effects(lf) if e.kind == "RemoveFile" and e.body is body
+                    and (e.classes.get("path") or ("?",))[0] == shape_}
+            cut_edges = set()
+            if shape_ == "Content":
+                # no content to remove when the lookup of the key found nothing: the None arm of that lookup is the one bypass
+                ff = find_fns(w)
+
+                def is_lookup(o):
+                    if o.kind != "call" or o.callee is None:
+                        return False
+                    h = prog.callee_fn(o.term)
+                    return h is not None and (h.path in ff or any(x.path in ff for x in w.reach_fns(h)))
+                for mg in match_gates(prog, body, is_lookup, "Some"):
+                    cut_edges |= set(mg.other_edges)
+            reach = set()
+            for g in gt:
+                reach |= cf.reachable(g.edge[1], cut_nodes=blks, cut_edges=cut_edges)
+            bad = [rd for rd in succ if rd.blk in reach]
+            if bad or not blks:
+                rep.violation("fully-incomplete:%s:%s" % (key, shape_),
+                              "`%s` can report a successful full removal without having removed the %s (success return at %s): the key "
+                              "would still be found / its content still stored" % (short(lf.path), what, blk_loc(body, bad[0].blk) if bad else "?"),
+                              loc=blk_loc(body, bad[0].blk) if bad else body.loc(), config=cfg, rule="remove-fully-complete")
+            else:
+                rep.ob(cfg, "remove-fully-complete", "%s.%s" % (key, shape_), "every successful full removal in `%s` passes the removal of the %s" % (short(lf.path), what))
     else:
         rep.violation("flag-shape:%s" % key, "`%s`: expected two file removals and one tombstone path (found %d/%d)" % (short(lf.path), len(rm_blocks), len(tomb_blocks)),
                       loc=body.loc(), config=cfg, rule="remove-fully-arms")
@@ -292,8 +332,19 @@ def check_clear_loop(cfg, w, rep, lf):
                     n_ok += 1
                 else:
                     ok = False
+            # every child the iterator yields is removed: inside the loop, the back edge is not reachable from the header
+            # without passing the removal (no `continue` that skips some kinds of entries)
+            back = [u for u in bl if h in cf.succ[u]]
+            inner = cf.reachable(h, cut_nodes=(set(cf.live()) - set(bl)) | {e.blk})
+            skipped = [u for u in back if u in inner]
+            if skipped:
+                ok = False
+                rep.violation("clear-skips:%s" % key,
+                              "`%s`: an iteration of the loop over the cache's children can go round without removing the child (at %s): "
+                              "clear would report success and leave entries behind" % (short(lf.path), e.loc()),
+                              loc=e.loc(), config=cfg, rule="clear-all-children")
             if ok and n_ok == 1:
                 rep.ob(cfg, "clear-all-children", fn_key(f), "removal loop in `%s` ends only when read_dir is exhausted (or on error)" % short(f.path))
-            else:
+            elif not skipped:
                 rep.violation("clear-early-exit:%s" % key, "`%s`: the loop over the cache's children can stop before the directory is exhausted" % short(lf.path),
                               loc=e.loc(), config=cfg, rule="clear-all-children")
